@@ -13,6 +13,7 @@ import (
 	"encoding/binary"
 	"encoding/hex"
 	"fmt"
+	"io"
 	"math"
 	"math/rand"
 	"os"
@@ -160,7 +161,33 @@ func TestValidator_BUF(t *testing.T) {
 		} else if err == nil || s != string(data) || b2.Len() != 0 {
 			t.Fatalf("ReadString no delimiter")
 		}
-		n += 3
+		// ReadByte: first unread octet, or (0, io.EOF) on an empty buffer; Next(k): view of min(k, len) octets; String: the unread part;
+		// WriteByte / Write: appended
+		b3 := bytes.NewBuffer(append([]byte(nil), data...))
+		c, err := b3.ReadByte()
+		if l == 0 {
+			if c != 0 || err != io.EOF || b3.Len() != 0 {
+				t.Fatalf("ReadByte on empty = %d,%v", c, err)
+			}
+		} else if c != data[0] || err != nil || !bytes.Equal(b3.Bytes(), data[1:]) {
+			t.Fatalf("ReadByte = %d,%v", c, err)
+		}
+		b4 := bytes.NewBuffer(append([]byte(nil), data...))
+		k := r.Intn(45)
+		m := k
+		if l < m {
+			m = l
+		}
+		nx := b4.Next(k)
+		if !bytes.Equal(nx, data[:m]) || b4.String() != string(data[m:]) {
+			t.Fatalf("Next(%d) of %d octets", k, l)
+		}
+		_ = b4.WriteByte(7)
+		_, _ = b4.Write([]byte{8, 9})
+		if b4.String() != string(data[m:])+"\x07\x08\x09" {
+			t.Fatalf("WriteByte/Write")
+		}
+		n += 5
 	}
 	// strings.Index: the least i with s[i:i+len(sub)] == sub, or -1
 	al := "ab: "
@@ -189,7 +216,7 @@ func TestValidator_BUF(t *testing.T) {
 		}
 		n++
 	}
-	ok(t, "A-BUF", n, "10^5 random buffers (len<40, alphabet of 4) x Read/IndexByte/ReadString; 2*10^5 random strings.Index/Join instances")
+	ok(t, "A-BUF", n, "10^5 random buffers (len<40, alphabet of 4) x Read/ReadByte/Next/String/WriteByte/Write/IndexByte/ReadString; 2*10^5 random strings.Index/Join instances")
 }
 
 // A-HEX
@@ -228,6 +255,27 @@ func TestValidator_FMT(t *testing.T) {
 			n++
 		}
 	}
+	// %0Nd of 0 <= v < 10^N is exactly N decimal digits; %d has no padding; %s and literal text are copied
+	for w := 1; w <= 12; w++ {
+		lim := uint64(1)
+		for i := 0; i < w; i++ {
+			lim *= 10
+		}
+		rw := rand.New(rand.NewSource(int64(40 + w)))
+		for it := 0; it < 3000; it++ {
+			v := uint64(rw.Int63n(int64(lim)))
+			if it == 0 {
+				v = 0
+			}
+			if it == 1 {
+				v = lim - 1
+			}
+			if got := fmt.Sprintf("a%0"+fmt.Sprint(w)+"d-%s%%", v, "xy"); got != "a"+dec(v, w)+"-xy%" {
+				t.Fatalf("%%0%dd %d: %q", w, v, got)
+			}
+			n++
+		}
+	}
 	r := rand.New(rand.NewSource(4))
 	for it := 0; it < 300000; it++ {
 		v := uint64(r.Int63n(10000000000))
@@ -250,7 +298,7 @@ func TestValidator_FMT(t *testing.T) {
 		}
 		n++
 	}
-	ok(t, "A-FMT10,A-FMT2,A-ATOI", n, "%02d on 0..99 (1500 tuples); %010d on 3*10^5 values below 10^10; 10^5 random instants 1970..2100")
+	ok(t, "A-FMT10,A-FMT2,A-ATOI", n, "%02d on 0..99 (1500 tuples); %0Nd for N=1..12 (3000 values each, with %s and literal text); %010d on 3*10^5 values below 10^10; 10^5 random instants 1970..2100")
 }
 
 // A-FLOAT: the float64 duration accessors agree with integer division below 4096 h
@@ -294,6 +342,12 @@ func TestValidator_TIMEPKG(t *testing.T) {
 				t.Fatalf("Format %q", s)
 			}
 		}
+		// the twelve digits are year mod 100, month, day, hour, minute, second of Date()/Clock(), two digits each
+		y, mo, d := tm.Date()
+		h, mi, se := tm.Clock()
+		if s != fmt.Sprintf("%02d%02d%02d%02d%02d%02d", y%100, int(mo), d, h, mi, se) || y != tm.Year() || mo != tm.Month() || d != tm.Day() || h != tm.Hour() || mi != tm.Minute() || se != tm.Second() {
+			t.Fatalf("Format %q against Date/Clock", s)
+		}
 		n++
 	}
 	for _, s := range []string{"1h", "90m", "1500ms", "-3s", "x", "", "743h59m59.5s", "4095h"} {
@@ -304,7 +358,7 @@ func TestValidator_TIMEPKG(t *testing.T) {
 		}
 		n++
 	}
-	ok(t, "A-TIMEPKG", n, "2*10^5 random instants 1970..2100")
+	ok(t, "A-TIMEPKG", n, "2*10^5 random instants 1970..2100 (Format against Date/Clock/Year..Second)")
 }
 
 // A-POOL: a buffer obtained from the pool is empty; writes append
